@@ -82,6 +82,32 @@ def _():
     return res
 
 
+@comp('LRTDP-corridor')
+def _():
+    # a longer stochastic, cyclic problem with STRING states and three actions: labelling passes (_check_solved) fail with several states closed, so the
+    # order of the corrective backups matters -- it must come from the search, not from hashing
+    names = ['room-%s' % chr(ord('a') + i) for i in range(9)]
+
+    def nsd(s, a):
+        i = names.index(s)
+        fwd, bwd = names[min(i + 1, 8)], names[max(i - 1, 0)]
+        if a == 'forward':
+            return DictDistribution.from_pairs([(fwd, .6), (s, .25), (bwd, .15)])
+        if a == 'back':
+            return DictDistribution.from_pairs([(bwd, .8), (s, .2)])
+        return DictDistribution.from_pairs([(names[min(i + 3, 8)], .3), (names[0], .3), (s, .4)])
+    m = QuickTabularMDP(next_state_dist=nsd, reward=lambda s, a, ns: -1.0 if a != 'jump' else -1.5, actions=('forward', 'back', 'jump'),
+                        initial_state_dist=DictDistribution({names[0]: .5, names[2]: .5}), is_absorbing=lambda s: s == names[-1], discount_rate=.95)
+    res = {}
+    for sd, its, sh in ((7, None, False), (0, 12, True), (3, 40, True)):
+        kw = dict(iterations=its) if its else {}
+        r = LRTDP(heuristic=lambda s: 0., bellman_error_margin=1e-2, seed=sd, randomize_action_order=sh, **kw).plan_on(m)
+        res['%s/%s' % (sd, its)] = dict(V=dict(r.V), init=r.initial_value, solved=sorted(s for s in names if r.solved.get(s)))
+    r = LAOStar(heuristic=lambda s: 0., seed=5, randomize_action_order=True).plan_on(m)
+    res['lao'] = dict(v=r.state_value_map, init=r.initial_value)
+    return res
+
+
 @comp('AStar')
 def _():
     det = QuickTabularMDP(next_state=lambda s, a: {'left': {'s0': 's1', 's1': 'goal', 's2': 'goal', 'goal': 'goal'}, 'right': {'s0': 's2', 's1': 's2', 's2': 's2', 'goal': 'goal'}}[a][s],
